@@ -44,6 +44,8 @@ def generate(rnd, tier):
     sid = SidCounter()
     from harness.props.C01 import gen_c01
     cases = [with_cc(gen_flat(rnd, sid)) for _ in range(n)] + [with_cc(gen_c01(rnd, sid)) for _ in range(n // 2)]
+    from harness.props.C02 import gen_late
+    cases += [with_cc(gen_late(rnd, sid)) for _ in range(n // 10)]
     for _ in range(n):
         c = gen_case(rnd, rnd.choice(["tame", "tame", "app", "loop"]), sid)
         c["deliver_at"] = []          # delivery points are indices into a log that may differ between the loops: deliver only when blocked
@@ -64,7 +66,7 @@ def run_impl(case):
 
 
 def model_case(case):
-    return flat_model_case(case) if case.get("mode") == "flat" else _s.model_case(case)
+    return flat_model_case(case) if case.get("mode") == "flat" else _s.model_case(case)       # None for cases with registrations while the loop runs
 
 
 def compare(case, impl, model):
